@@ -78,7 +78,7 @@ Fixpoint ddecl (e : expr) : list name :=
   | EAssign _ e1 => ddecl e1
   | EIf c t f => ddecl c ++ ddecl t ++ ddecl f
   | EWhile _ _ => []
-  | EFor _ _ _ _ _ => []
+  | EFor _ e1 _ _ _ => ddecl e1       (* the first iteratee is evaluated in the enclosing frame *)
   | ESwitch e1 _ => ddecl e1
   | ETry b _ _ => ddecl b
   | EThrow e1 => ddecl e1
@@ -281,6 +281,8 @@ Definition prim_apply (p : prim) (vs : list val) (st : state) : result val :=
   | PMul, [VInt a; VInt b] => ret st (VInt (a * b))
   | (PAdd | PSub | PMul), [_; _] => throw_err st       (* "only accepts numbers" *)
   | PSub, [_] => throw_err st
+  | (PAdd | PSub | PMul), [] => throw_err st           (* "only accepts two numbers, got 0" *)
+  | (PAdd | PSub | PMul), _ :: _ :: _ :: _ => throw_err st   (* one argument is a partial application *)
   | PLt, [VInt a; VInt b] => ret st (vbool (Z.ltb a b))
   | PEq, [a; b] => if simple a && simple b then ret st (vbool (veqb a b)) else unsupported st
   | PLen, [VList l] => ret st (VInt (Z.of_nat (length l)))
